@@ -612,4 +612,73 @@ theorem C02_between_exact (c : Nat) (l h x : Value) (row : Row) (r : Range)
               simp (config := { decide := true }) [inRangeSql, nx', h1, h2, cmpOp_ge, cmpOp_le, cmpOp_gt, nx, Value.truthy, TV.ofBool, pure, Except.pure] <;>
               exact hno (by decide) (by decide)
 
+
+/-! ### T2 for `col op₁ v₁ AND col op₂ v₂` -/
+
+/-- value of a comparison `col op literal` on a row: NULL for a NULL key, else decided by `cmp?` -/
+theorem simple_eval (c : Nat) (op : BinOp) (v x : Value) (row : Row) (hop : isCmpOp op = true)
+    (nv : v.isNull = false) (hrow : row[c]? = some x) :
+    (Expr.bin op (.col c) (.lit v)).eval row =
+      if x.isNull then .ok .null
+      else match Value.cmp? x v with
+        | some o => .ok (.bool (cmpOp op o))
+        | none => .error .typeMismatch := by
+  simp only [Expr.eval, hrow, bind, Except.bind]
+  by_cases nx : x.isNull = true
+  · have : x = .null := by cases x <;> simp_all [Value.isNull]
+    subst this
+    simp [evalBin_cmp_null_left op v hop, Value.isNull]
+  · have nx' : x.isNull = false := by simpa using nx
+    rw [evalBin_cmp op x v hop nx' nv]
+    simp [nx']
+
+/-- a conjunction of two comparisons is TRUE iff both are -/
+theorem and_tv_simple (c : Nat) (op1 op2 : BinOp) (v1 v2 x : Value) (row : Row)
+    (h1 : isCmpOp op1 = true) (h2 : isCmpOp op2 = true)
+    (n1 : v1.isNull = false) (n2 : v2.isNull = false) (hrow : row[c]? = some x) :
+    (Expr.bin .and (.bin op1 (.col c) (.lit v1)) (.bin op2 (.col c) (.lit v2))).tv row = .ok .t ↔
+      ((Expr.bin op1 (.col c) (.lit v1)).tv row = .ok .t ∧
+        (Expr.bin op2 (.col c) (.lit v2)).tv row = .ok .t) := by
+  have e1 := simple_eval c op1 v1 x row h1 n1 hrow
+  have e2 := simple_eval c op2 v2 x row h2 n2 hrow
+  simp only [Expr.tv]
+  rw [show (Expr.bin BinOp.and (.bin op1 (.col c) (.lit v1)) (.bin op2 (.col c) (.lit v2))).eval row
+      = (do let a ← (Expr.bin op1 (.col c) (.lit v1)).eval row
+            let b ← (Expr.bin op2 (.col c) (.lit v2)).eval row
+            evalBin .and a b) from rfl, e1, e2]
+  cases hx : x.isNull
+  · cases Value.cmp? x v1 <;> cases Value.cmp? x v2 <;>
+      simp [bind, Except.bind, evalBin, Value.toTV, Value.ofTV, Value.truthy, TV.and3, TV.ofBool,
+        pure, Except.pure]
+    rename_i o1 o2
+    cases cmpOp op1 o1 <;> cases cmpOp op2 o2 <;> simp [TV.and3, Value.ofTV, TV.ofBool]
+  · simp [bind, Except.bind, evalBin, Value.toTV, Value.ofTV, Value.truthy, TV.and3, pure, Except.pure]
+
+/-- T2 for the AND form accepted by `fullySatisfied`: lower bound in one conjunct, upper bound in the
+other, in either order — the merged range is TRUE exactly when the WHERE clause is -/
+theorem C02_and_range_exact (c : Nat) (op1 op2 : BinOp) (v1 v2 x : Value) (row : Row) (r1 r2 : Range)
+    (h1 : isRangeOp op1 = true) (h2 : isRangeOp op2 = true) (hrow : row[c]? = some x)
+    (e1 : extractRange c (.bin op1 (.col c) (.lit v1)) = some r1)
+    (e2 : extractRange c (.bin op2 (.col c) (.lit v2)) = some r2)
+    (hlo : r1.lo.isNone = true ∨ r2.lo.isNone = true) (hhi : r1.hi.isNone = true ∨ r2.hi.isNone = true) :
+    extractRange c (.bin .and (.bin op1 (.col c) (.lit v1)) (.bin op2 (.col c) (.lit v2)))
+        = some (mergeRange r1 r2) ∧
+      (inRangeSql x (mergeRange r1 r2) = true ↔
+        (Expr.bin .and (.bin op1 (.col c) (.lit v1)) (.bin op2 (.col c) (.lit v2))).tv row = .ok .t) := by
+  have n1 : v1.isNull = false := by
+    cases op1 <;> simp [isRangeOp] at h1 <;> cases v1 <;> simp_all [extractRange, isCol, litOf, Value.isNull]
+  have n2 : v2.isNull = false := by
+    cases op2 <;> simp [isRangeOp] at h2 <;> cases v2 <;> simp_all [extractRange, isCol, litOf, Value.isNull]
+  have c1 : isCmpOp op1 = true := by cases op1 <;> simp_all [isRangeOp, isCmpOp]
+  have c2 : isCmpOp op2 = true := by cases op2 <;> simp_all [isRangeOp, isCmpOp]
+  refine ⟨?_, ?_⟩
+  · show (match extractRange c (.bin op1 (.col c) (.lit v1)), extractRange c (.bin op2 (.col c) (.lit v2)) with
+        | some a, some b => some (mergeRange a b)
+        | some a, none => some a
+        | none, some b => some b
+        | none, none => none) = _
+    rw [e1, e2]
+  · rw [C02_merge_exact x r1 r2 hlo hhi, Bool.and_eq_true, and_tv_simple c op1 op2 v1 v2 x row c1 c2 n1 n2 hrow,
+      C02_simple_range_exact c op1 v1 x row r1 h1 hrow e1, C02_simple_range_exact c op2 v2 x row r2 h2 hrow e2]
+
 end VibeProof.C02
